@@ -106,7 +106,7 @@ func runC14(r *ev.Run) {
 			stop := make(chan struct{})
 			var calls atomic.Int64
 			hw := c14Hammer(st, stop, &calls)
-			cfg := c01Cfg{senders: 4, receivers: 3, repeats: 1, replies: true}
+			cfg := c01Cfg{senders: 4, receivers: 3, repeats: 1, replies: true, doubleClose: rep%2 == 0}
 			d := runLedgerWorkload(r, st, cg, caseID, cfg, "C14")
 			close(stop)
 			hw.Wait()
